@@ -1,5 +1,6 @@
 import PonyVerif.Drive.Util
 import PonyVerif.Model.Loading
+import PonyVerif.Gen.LoadDecisions
 namespace PonyVerif.Drive.C23
 open Lean PonyVerif.Drive PonyVerif.Model.Loading
 
@@ -130,6 +131,14 @@ def handle (j : Json) : Except String Json := do
         | some sd => some (Json.arr #[.num (JsonNumber.fromNat k.1), .num (JsonNumber.fromNat k.2),
                                       .arr ((canon db sd.items).map (fun n => Json.num (JsonNumber.fromNat n))).toArray, .bool sd.full, jOptNat sd.count])
       pure (Json.mkObj [("vals", .arr outVals.toArray), ("sets", .arr outSets.toArray)])
+  | "decide" =>
+      -- the batch decisions of Set.load as they are in the source (regenerated): used by the harness to predict which loader a read runs
+      let what ← argStr j "what"
+      match what with
+      | "prefetching" => pure (Json.mkObj [("r", .bool (Gen.LoadDecisions.prefetching (← argBool j "lazy") (← argBool j "thresholdSet") (← argBool j "counterReached")))])
+      | "batchSkips" => pure (Json.mkObj [("r", .bool (Gen.LoadDecisions.batchSkips (← argBool j "same") (← argBool j "createdOrDeleted") (← argBool j "hasSd") (← argBool j "full")))])
+      | "partialLoad" => pure (Json.mkObj [("r", .bool (Gen.LoadDecisions.partialLoad (← argBool j "hasItems") (← argBool j "lazy") (← argBool j "sdNonEmpty")))])
+      | _ => throw s!"decide {what}"
   | "merge" =>
       let rows ← natList (← j.getObjVal? "rows")
       let p : Pending := ⟨← natList (← j.getObjVal? "items"), ← natList (← j.getObjVal? "added"), ← natList (← j.getObjVal? "removed")⟩
